@@ -482,5 +482,5 @@ package ledger
 //@ func (ctrl *DefaultController) importLog(ctx context.Context, store Store, log ledger.Log) (err error)
 //@   property C38 C07 C28
 //@   requires log.ID != nil
-//@   modifies writes, logs, lastRevertModified
+//@   modifies writes, logs, lastRevertModified, findSchemaCalls, findSchemaNotFound, findSchemaFailed
 //@   ensures forall h Store :: {writes[h]} {old(writes)[h]} h != store ==> writes[h] == old(writes)[h]
